@@ -229,7 +229,10 @@ CLAIMS["C09"] = {
 }
 
 CLAIMS["C05"] = {
-    "text": "Fourteen Coq theorems (Props/C05.v). C05_roundtrip: for every well-formed message value (dns_wf: the per-type wire "
+    "text": "Twenty-seven Coq theorems (Props/C05.v). C05_encode_succeeds: every well-formed message value whose uncompressed size "
+            "(Spec/USize.v, defined on the value alone) fits in 65,535 octets encodes; C05_encode_fails_only_by_size: otherwise "
+            "the only possible failure is Length with an uncompressed size above the limit; the output is never longer than the "
+            "uncompressed size. C05_roundtrip: for every well-formed message value (dns_wf: the per-type wire "
             "constraints as a boolean predicate - legal names, UTF-8 strings <= 255, registered code points, widths, the validated "
             "types' invariants, sections <= 65,535) whenever enc_Dns m = Ok b the model decoder reads b back as m up to ASCII case "
             "of labels and the order of mandatory keys; C05_reference_reads_back: so does the INDEPENDENT reference decoder "
@@ -239,12 +242,13 @@ CLAIMS["C05"] = {
             "refers backwards to a label start of an earlier written name, <= 16 hops). Unbounded. Tie: E Dns byte-exact vs the "
             "model over random valid values of the whole vocabulary, boundary values, nesting 1..64, placements around 0x3FFF, "
             "16-64 KiB; the implementation's bytes are re-read by the Python reference decoder (value, counts, lengths, pointers).",
-    "note": "'encode succeeds for every value within the limits' is proved for names (C06_never_fails) and observed on the streams; the message-level statement (failure only by the 65,535 limit) is not yet a theorem. " + NOTE_COMMON,
+    "note": "dns_wf is the boolean predicate of the per-type wire constraints (Proofs/C05.v, RtFields.v); the size hypothesis is sufficient, not necessary (compression may rescue a larger message). " + NOTE_COMMON,
     "technique": "Coq proof (encode/decode round trip through the name-layer invariant, composed with the refinement to an independent reference decoder) + byte-exact differential correspondence + reference-decoder oracle",
     "ref": "DESIGN.md section 7 C05",
 }
 CLAIMS["C02"] = {
-    "text": "Six Coq theorems (Props/C02.v): C02_decoded_wf - every message the model decoder accepts satisfies the wire constraints "
+    "text": "Eight Coq theorems (Props/C02.v): C02_encode_succeeds - a decoded message whose uncompressed size fits in 65,535 octets "
+            "always encodes (C02_reencode_fails_only_by_size: the only possible failure is Length above that size); C02_decoded_wf - every message the model decoder accepts satisfies the wire constraints "
             "dns_wf (so decoded values are always within the encoder's domain); C02_reencode - if it then encodes, decoding the "
             "result yields the same message field by field (header, every section in order, owner names, TTL, class, every RDATA "
             "field, every EDNS option, every SvcParam value; names up to ASCII case); C02_reencode_reference - the independent "
@@ -252,7 +256,7 @@ CLAIMS["C02"] = {
             "repository vectors, structured messages in every layout, near-miss and byte-level mutations, nesting 1..64 (the "
             "pre-fix compress() failed at 18), 20/60 KiB; oracle: accepted and uncompressed size <= 65,535 => re-encodes and the "
             "second decode is equal field by field.",
-    "note": "'encoding succeeds whenever the uncompressed size fits' is checked by the oracle on every accepted case; as a theorem only the name layer is covered (C06_never_fails). The mandatory key list is compared as a set (emission sorts it). " + NOTE_COMMON,
+    "note": "The mandatory key list is compared as a set (emission sorts it); names up to ASCII case. " + NOTE_COMMON,
     "technique": "Coq proof (decoder output is well-formed; round trip) + differential D cases with re-encode / second decode",
     "ref": "DESIGN.md section 7 C02",
 }
